@@ -101,6 +101,28 @@ theorem C17_multi_n (idx : IntTy) (hw : idx.wf) (hnb : idx.isBool = false) (s : 
           have : n * dimsProd ns * s = n * (dimsProd ns * s) := Nat.mul_assoc _ _ _
           omega
 
+/-- Converse for any rank: in-range index vectors of the right rank are never refused. -/
+theorem C17_multi_n_complete (idx : IntTy) (hw : idx.wf) (hnb : idx.isBool = false) (s : Nat) :
+    ∀ (is : List Int) (ns : List Nat) (base : Nat), (∀ i ∈ is, idx.inRange i) → allInside is ns →
+      indexMulti idx is ns s base = some (base + flatIdx is ns * s) := by
+  intro is
+  induction is with
+  | nil =>
+    intro ns base _ h
+    cases ns with
+    | nil => simp [indexMulti, flatIdx]
+    | cons n ns => simp [allInside] at h
+  | cons i is ih =>
+    intro ns base hr h
+    cases ns with
+    | nil => simp [allInside] at h
+    | cons n ns =>
+      obtain ⟨hi, hrest⟩ := h
+      have hok : indexOk idx i n = true := (C17_checked idx i n hw hnb (hr i (by simp))).2 hi
+      simp only [indexMulti, indexArr, hok, if_true, Option.bind_some]
+      rw [ih ns _ (fun j hj => hr j (by simp [hj])) hrest]
+      simp only [flatIdx, Nat.add_mul, Nat.mul_assoc, Nat.add_assoc]
+
 /-- the 2-dimensional case of the general definition is `index2` -/
 theorem index2_eq_multi (idx : IntTy) (i j : Int) (n1 n2 s base : Nat) :
     indexMulti idx [i, j] [n1, n2] s base = index2 idx i j n1 n2 s base := by
